@@ -7,12 +7,13 @@
   key; a key `kdf (shared a b) …` is derivable only from `priv a` or `priv b`.
   Computational secrecy of X25519/HKDF/ChaCha20-Poly1305 is ASSUMED (that is what "symbolic" means).
 
-  What the endpoints do when the peer's ephemeral key arrives as all-zero is part of the model,
-  per tunnel kind, exactly as the code does it (`Kind.zeroKeyFallback`):
-    tcp/forward/shell/file: ComputeECDH / "encryption required" refuses -> no tunnel, no data frames
-    udp/icmp              : the key exchange is SKIPPED and datagrams travel in PLAINTEXT
-                            (udp.Association.Encrypt / icmp.Session.Encrypt return their input when
-                             no session key is set; agent.deriveICMPSessionKey returns nil, nil)
+  What the endpoints do when the peer's ephemeral key arrives as all-zero is part of the model, per
+  tunnel kind (parameter `fb : Kind → Bool` of `decideWith`):
+    the code after fixes/C04-refuse-zero-ephemeral-key.patch (`noFallback`): every kind refuses
+      (ComputeECDH / "encryption required") -> no tunnel, no data frames;
+    the pinned tree (`fallbackV0`): tcp/forward/shell/file refused, but for udp/icmp the key exchange
+      was SKIPPED and datagrams travelled in PLAINTEXT (udp.Association.Encrypt / icmp.Session.Encrypt
+      returned their input when no session key was set; agent.deriveICMPSessionKey returned nil, nil).
   Core Lean only.
 -/
 namespace MM.C04
@@ -46,11 +47,14 @@ inductive Kind where
 
 def Kind.all : List Kind := [.tcp, .forward, .udp, .icmp, .shell, .file]
 
-/-- Pinned behaviour: which kinds skip encryption when the peer's ephemeral key is all-zero. -/
-def Kind.zeroKeyFallback : Kind → Bool
+/-- Pinned tree: which kinds skipped encryption when the peer's ephemeral key was all-zero. -/
+def fallbackV0 : Kind → Bool
   | .udp => true
   | .icmp => true
   | _ => false
+
+/-- Fixed code: no kind does. -/
+def noFallback : Kind → Bool := fun _ => false
 
 inductive FType where
   | openF | ack | data
@@ -70,14 +74,17 @@ inductive Mode where
   deriving Repr, DecidableEq
 
 /-- Key decision of an endpoint `me` of kind `kd` that received `peerKey` (request id `req`;
-    `meIsInit` = it is the ingress side). -/
-def decide (kd : Kind) (me : Party) (meIsInit : Bool) (req : Nat) (peerKey : Term) : Mode :=
+    `meIsInit` = it is the ingress side); `fb` = zero-key fallback table. -/
+def decideWith (fb : Kind → Bool) (kd : Kind) (me : Party) (meIsInit : Bool) (req : Nat) (peerKey : Term) : Mode :=
   match peerKey with
-  | .zeroKey => if kd.zeroKeyFallback then .plaintext else .refuse
+  | .zeroKey => if fb kd then .plaintext else .refuse
   | .pub q =>
     if meIsInit then .sealWith (.kdf (dhT me q) req (.pub me) (.pub q))
     else .sealWith (.kdf (dhT me q) req (.pub q) (.pub me))
   | _ => .refuse
+
+/-- The code as it is now. -/
+def decide : Kind → Party → Bool → Nat → Term → Mode := decideWith noFallback
 
 /-- Data frames for the chunks `cs` (atoms) in a mode, direction prefix `pfx`, counters from 0. -/
 def dataFrames (m : Mode) (pfx : Nat) : Nat → List Nat → List Frame
@@ -90,15 +97,15 @@ def dataFrames (m : Mode) (pfx : Nat) : Nat → List Nat → List Frame
 
 /-- Everything the ingress emits towards the exit: the open (request id, destination, its public
     key) and then its data frames, given the responder key `rk` it found in the ack. -/
-def ingressFrames (kd : Kind) (req dest : Nat) (rk : Term) (up : List Nat) : List Frame :=
+def ingressFrames (fb : Kind → Bool) (kd : Kind) (req dest : Nat) (rk : Term) (up : List Nat) : List Frame :=
   ⟨.openF, [.const req, .const dest, .pub .ingress]⟩ ::
-    dataFrames (decide kd .ingress true req rk) 0 0 up
+    dataFrames (decideWith fb kd .ingress true req rk) 0 0 up
 
 /-- Everything the exit emits towards the ingress, given the initiator key `ik` it found in the open:
     nothing when it refuses; otherwise the ack (with its public key iff it did a key exchange) and
     its data frames. -/
-def exitFrames (kd : Kind) (req bound : Nat) (ik : Term) (down : List Nat) : List Frame :=
-  match decide kd .exit false req ik with
+def exitFrames (fb : Kind → Bool) (kd : Kind) (req bound : Nat) (ik : Term) (down : List Nat) : List Frame :=
+  match decideWith fb kd .exit false req ik with
   | .refuse => []
   | .plaintext => ⟨.ack, [.const req, .const bound, .zeroKey]⟩ :: dataFrames .plaintext 0x80000000 0 down
   | .sealWith k => ⟨.ack, [.const req, .const bound, .pub .exit]⟩ :: dataFrames (.sealWith k) 0x80000000 0 down
@@ -112,8 +119,11 @@ structure Tamper where
 def passive : Tamper := ⟨.pub .ingress, .pub .exit⟩
 
 /-- All frames that pass through the transit in one tunnel. -/
-def wire (kd : Kind) (t : Tamper) (req dest bound : Nat) (up down : List Nat) : List Frame :=
-  ingressFrames kd req dest t.rkSeenByIngress up ++ exitFrames kd req bound t.ikSeenByExit down
+def wireWith (fb : Kind → Bool) (kd : Kind) (t : Tamper) (req dest bound : Nat) (up down : List Nat) : List Frame :=
+  ingressFrames fb kd req dest t.rkSeenByIngress up ++ exitFrames fb kd req bound t.ikSeenByExit down
+
+/-- The code as it is now. -/
+def wire : Kind → Tamper → Nat → Nat → Nat → List Nat → List Nat → List Frame := wireWith noFallback
 
 /-! ### observer knowledge -/
 
